@@ -28,3 +28,49 @@ def make_csys(W, name, basis=None):
 
 
 DIMS = {"1q": 2, "1qt": 3, "2q": 4, "qxqt": 6}
+
+
+# ------------------------------------------------------------------ symbolic / native object builders
+
+def obj_state(W, mk, c_sys, name="v", on_para=True, **kw):
+    d = c_sys.dim
+    vec = mk.array(name, d * d)
+    return W.mod("quara.objects.state").State(c_sys, vec, is_physicality_required=False,
+                                              on_para_eq_constraint=on_para, **kw)
+
+
+def obj_povm(W, mk, c_sys, m, name="p", on_para=True, **kw):
+    d = c_sys.dim
+    vecs = [mk.array(f"{name}{x}", d * d) for x in range(m)]
+    return W.mod("quara.objects.povm").Povm(c_sys, vecs, is_physicality_required=False,
+                                            on_para_eq_constraint=on_para, **kw)
+
+
+def obj_gate(W, mk, c_sys, name="g", on_para=True, **kw):
+    n = c_sys.dim ** 2
+    hs = mk.array(name, (n, n))
+    return W.mod("quara.objects.gate").Gate(c_sys, hs, is_physicality_required=False,
+                                            on_para_eq_constraint=on_para, **kw)
+
+
+def obj_mprocess(W, mk, c_sys, m, name="mp", on_para=True, shape=None, **kw):
+    n = c_sys.dim ** 2
+    hss = [mk.array(f"{name}{x}", (n, n)) for x in range(m)]
+    return W.mod("quara.objects.mprocess").MProcess(c_sys, hss, shape=shape, is_physicality_required=False,
+                                                    on_para_eq_constraint=on_para, **kw)
+
+
+def stacked(W, obj):
+    """the object's defining arrays as one list (for comparisons)"""
+    t = type(obj).__name__
+    if t == "State":
+        return [obj.vec]
+    if t == "Povm":
+        return list(obj.vecs)
+    if t == "Gate":
+        return [obj.hs]
+    if t == "MProcess":
+        return list(obj.hss)
+    if t == "EffectiveLindbladian":
+        return [obj.hs]
+    raise TypeError(t)
